@@ -81,6 +81,24 @@ Proof. reflexivity. Qed.
 Example tie_C20_raises_pulse_sequence__map_identifiers :
   raises_pulse_sequence__map_identifiers = [("ValueError", "except KeyError"); ("ValueError", "len(set(remapped_identifiers)) != len(remapped_identifiers)")].
 Proof. reflexivity. Qed.
+Example tie_C20_raises_pulse_sequence_PulseSequence_cache_control_matrix :
+  raises_pulse_sequence_PulseSequence_cache_control_matrix = [("ValueError", "control_matrix.ndim not in (3, 4) or control_matrix.shape[-3:] != required_shape")].
+Proof. reflexivity. Qed.
+Example tie_C20_raises_pulse_sequence_PulseSequence_cache_filter_function :
+  raises_pulse_sequence_PulseSequence_cache_filter_function = [("ValueError", "filter_function.shape != required_shape")].
+Proof. reflexivity. Qed.
+Example tie_C20_raises_pulse_sequence_PulseSequence_cache_total_phases :
+  raises_pulse_sequence_PulseSequence_cache_total_phases = [("ValueError", "np.shape(total_phases) != np.shape(omega)")].
+Proof. reflexivity. Qed.
+Example tie_C20_raises_pulse_sequence_PulseSequence_propagator_at_arb_t :
+  raises_pulse_sequence_PulseSequence_propagator_at_arb_t = [("ValueError", "(t > self.t[-1]).any()")].
+Proof. reflexivity. Qed.
+Example tie_C20_raises_basis_Basis_pauli :
+  raises_basis_Basis_pauli = [("ValueError", "n < 1")].
+Proof. reflexivity. Qed.
+Example tie_C20_raises_basis_Basis_ggm :
+  raises_basis_Basis_ggm = [("ValueError", "d < 1")].
+Proof. reflexivity. Qed.
 
 Example tie_C20_hashes :
   Src.h_pulse_sequence__concatenate_Hamiltonian = Expected.h_pulse_sequence__concatenate_Hamiltonian
